@@ -47,7 +47,10 @@ Definition cow_remove (ip : Z) (l : list host) : list host * bool :=
 Inductive pkind :=
 | PRR                          (* RoundRobinHostPolicy() *)
 | PDC (local_dc : Z)           (* DCAwareRoundRobinPolicy(localDC) *)
-| PRack (local_dc local_rack : Z).   (* RackAwareRoundRobinPolicy(localDC, localRack) *)
+| PRack (local_dc local_rack : Z)    (* RackAwareRoundRobinPolicy(localDC, localRack) *)
+| PByDC (m : nat).                   (* a HostTierer with m+1 tiers built from the same parts (cowHostList per tier,
+                                        roundRobbin over all of them): tier = min(data centre number, m); the code of
+                                        roundRobbin and of tokenAwareHostPolicy.Pick is generic in the number of tiers *)
 
 (* which list a host goes to: 0 for roundRobin; IsLocal ? local : remote for dcAwareRR; HostTier for rackAwareRR *)
 Definition host_tier (k : pkind) (h : host) : nat :=
@@ -55,9 +58,10 @@ Definition host_tier (k : pkind) (h : host) : nat :=
   | PRR => 0
   | PDC d => if hdc h =? d then 0 else 1
   | PRack d r => if hdc h =? d then (if hrack h =? r then 0 else 1) else 2
+  | PByDC m => Nat.min (Z.to_nat (hdc h)) m
   end.
 
-Definition ntiers (k : pkind) : nat := match k with PRR => 1 | PDC _ => 2 | PRack _ _ => 3 end.
+Definition ntiers (k : pkind) : nat := match k with PRR => 1 | PDC _ => 2 | PRack _ _ => 3 | PByDC m => S m end.
 
 Record policy := mkPolicy { pk : pkind; plists : list (list host); pctr : Z }.   (* pctr: lastUsedHostIdx, uint64 *)
 
@@ -134,8 +138,8 @@ Definition rr_pick (p : policy) : rr_iter * policy :=
 (* ---- tokenAwareHostPolicy.Pick ---------------------------------------------------------------- *)
 (* (as repaired: the second loop walks every tier, both replica loops skip a replica already offered,
    and a ring without tokens makes Pick return the fallback's generator) *)
-(* maxTier: rackAwareRR is the only HostTierer (MaxHostTier() = 2); otherwise 1 *)
-Definition max_tier (k : pkind) : nat := match k with PRack _ _ => 2 | _ => 1 end.
+(* maxTier: MaxHostTier() of a HostTierer (rackAwareRR: 2), otherwise 1 *)
+Definition max_tier (k : pkind) : nat := match k with PRack _ _ => 2 | PByDC m => m | _ => 1 end.
 
 (* remote[i] = append(remote[i], h) *)
 Definition app_at (remote : list (list host)) (i : nat) (h : host) : list (list host) :=
